@@ -117,7 +117,7 @@ def check_C10(tier):
             os.makedirs(vlib.REPLAYS, exist_ok=True)
             os.replace(tp, keep)
             c.violation("follow race trace rejected by Trace_Follow.tla", {"trace": keep, "tlc": tr.log[-1500:] if not rej else tr.log[tr.log.find("TRACE-REJECTED") - 5:][:800]})
-    c.rule = ("TLC enumerates every UTF-8 content up to MaxLen bytes over {a,b,LF,CR,U+00E9} x start offset x head/tail x BufReader capacity x "
+    c.rule = ("TLC enumerates every UTF-8 content up to MaxLen bytes over {a, blank, LF, CR, U+00E9, a byte that is not UTF-8} x start offset x head/tail x BufReader capacity x "
               "every chunking of the writer's appends (placed at every reader retry point, plus one empty poll); each behaviour is replayed on the real "
               "FollowFileIterator through the follow_retry hook. Non-trivial = at least one line is delivered; distinct by (content, start, head, capacity, schedule).")
     c.assumptions = ["regular-file append/read semantics of the kernel", "appends between two fills of one read_line call are unobservable for an append-only file (checked on the model: the free-append configuration satisfies the same invariants)",
